@@ -1,3 +1,41 @@
-From NoKV Require Import Model.Lsm.
-Theorem C02_placeholder : True. Proof. exact I. Qed.
-Print Assumptions C02_placeholder.
+(** C02 — versioned reads return the newest entry at or below the requested version.
+
+    Same model and specification as C01.  The full statement (arbitrary
+    version orders) is refuted for the faithful model ([C02_order_refuted]:
+    the first memtable / level that holds any version <= v answers — known
+    finding C02-F4); [C02_reads_latest_version] is the statement that holds:
+    whenever the sources are ordered by recency (which writes with increasing
+    versions per key maintain), a read at [v] returns the write with the
+    greatest version <= [v]. *)
+From Coq Require Import List NArith.
+From NoKV Require Import Base.Bytes Model.Lsm Spec.MvccSpec Spec.LsmSpec
+     Proofs.LsmOrder Proofs.LsmRead Proofs.LsmGet Proofs.LsmMain Proofs.LsmWitness.
+
+Theorem C02_reads_latest_version : forall s ws k v,
+  src_inv s -> tier_inv (tiers_of s) -> content_ok s ws -> seq_functional ws ->
+  get s k v = latest_at ws k v.
+Proof. exact get_latest. Qed.
+Print Assumptions C02_reads_latest_version.
+
+(** Every source lookup is "greatest version <= v of this key in this source". *)
+Theorem C02_source_search : forall k v l x,
+  sorted l -> src_search k v l = Some x ->
+  In x l /\ is_cand k v x /\ forall y, In y l -> is_cand k v y -> (r_ver y <= r_ver x)%N.
+Proof. exact src_search_some. Qed.
+Print Assumptions C02_source_search.
+
+Theorem C02_source_search_none : forall k v l,
+  sorted l -> src_search k v l = None -> forall y, In y l -> ~ is_cand k v y.
+Proof. exact src_search_none. Qed.
+Print Assumptions C02_source_search_none.
+
+Theorem C02_tiered_read_latest : forall k v tiers,
+  tier_inv tiers -> is_latest (all_recs tiers) k v (tget k v tiers).
+Proof. exact tget_latest. Qed.
+Print Assumptions C02_tiered_read_latest.
+
+Theorem C02_order_refuted :
+  exists ops k v, option_map r_val (get (run (init 1) ops) k v)
+                  <> option_map r_val (latest_at (writes ops) k v).
+Proof. exact out_of_order_refuted. Qed.
+Print Assumptions C02_order_refuted.
